@@ -40,6 +40,11 @@ Record shared := {
   lin : list lin_ev                  (* ghost: operations in the order of their linearisation points *)
 }.
 
+(* the observers Len / IsEmpty / IsFull: two counter loads each *)
+Inductive obs := KLen | KIsEmpty | KIsFull.
+(* Len(): two loads, a wrapping subtraction, a clamp *)
+Definition len_of (t h c : Z) : Z := let l := u32 (t - h) in if c <? l then c else l.
+
 Inductive pc :=
 | Idle
 | PuLoadTail (v : Z)
@@ -52,10 +57,13 @@ Inductive pc :=
 | PoCas (pos seq H0 : Z)
 | PoRead (pos seq H0 gv : Z)
 | PoClear (pos seq H0 gv : Z) (val : option Z)
-| PoRelease (pos seq H0 gv : Z) (val : option Z).
+| PoRelease (pos seq H0 gv : Z) (val : option Z)
+| ObsFirst (k : obs)
+| ObsSecond (k : obs) (a : Z).
 
-Inductive op := OpPush (v : Z) | OpPop.
-Inductive res := RPush (b : bool) | RPop (o : option Z) (claimed : option Z).  (* claimed: ghost, value taken at the LP *)
+Inductive op := OpPush (v : Z) | OpPop | OpObs (k : obs).
+Inductive res := RPush (b : bool) | RPop (o : option Z) (claimed : option Z)
+  | RObs (k : obs) (z : Z) (c : Z).   (* observer result (Len value, or 0/1) and, as a ghost, the capacity *)  (* claimed: ghost, value taken at the LP *)
 
 Definition sidx (s : shared) (pos : Z) : nat := Z.to_nat (pos mod cap s).   (* pos & mask *)
 
@@ -65,7 +73,16 @@ Definition set_slot (s : shared) (i : nat) (x : option Z * Z) (f : phase) : shar
 (* one atomic (or non-atomic shared) step of a thread; returns new shared state, new pc, optional result *)
 Definition tstep (s : shared) (p : pc) (o : op) : option (shared * pc * option res) :=
   match p with
-  | Idle => match o with OpPush v => Some (s, PuLoadTail v, None) | OpPop => Some (s, PoLoadHead, None) end
+  | Idle => match o with OpPush v => Some (s, PuLoadTail v, None) | OpPop => Some (s, PoLoadHead, None)
+                         | OpObs k => Some (s, ObsFirst k, None) end
+  (* IsEmpty: head then tail; IsFull and Len: tail then head (operand order of the Go expressions) *)
+  | ObsFirst k => Some (s, ObsSecond k (match k with KIsEmpty => u32 (hd s) | _ => u32 (tl s) end), None)
+  | ObsSecond k a =>
+      Some (s, Idle, Some (RObs k (match k with
+                                   | KLen => len_of a (u32 (hd s)) (cap s)
+                                   | KIsFull => if u32 (a - u32 (hd s)) =? cap s then 1 else 0
+                                   | KIsEmpty => if a =? u32 (tl s) then 1 else 0
+                                   end) (cap s)))
   | PuLoadTail v => Some (s, PuLoadSeq v (u32 (tl s)) (tl s), None)
   | PuLoadSeq v pos T0 =>
       match nth_error (slots s) (sidx s pos) with
@@ -180,7 +197,7 @@ Record G (k : Z) (s : shared) : Prop := {
 
 Definition tassert (s : shared) (p : pc) : Prop :=
   match p with
-  | Idle | PuLoadTail _ | PoLoadHead => True
+  | Idle | PuLoadTail _ | PoLoadHead | ObsFirst _ | ObsSecond _ _ => True
   | PuLoadSeq v pos T0 => pos = u32 T0 /\ T0 <= tl s
   | PuCas v pos seq T0 => pos = u32 T0 /\ T0 <= tl s /\ seq = pos /\ (T0 = tl s -> phase_at s T0 = Some (Free T0))
   | PuWrite v pos seq T0 =>
@@ -219,7 +236,12 @@ Definition Uniq (l : list pc) : Prop :=
     owner_phase p1 = Some f -> owner_phase p2 <> Some f.
 
 Definition res_ok (r : nat * res) : Prop :=
-  match snd r with RPop v (Some g) => v = Some g | _ => True end.
+  match snd r with
+  | RPop v (Some g) => v = Some g
+  | RObs KLen z c => 0 <= z <= c
+  | RObs _ z _ => z = 0 \/ z = 1
+  | _ => True
+  end.
 
 Definition is_owned (f : phase) : bool := match f with PushOwned _ | PopOwned _ => true | _ => false end.
 (* every slot that is in an owned phase has an owning thread *)
@@ -282,8 +304,6 @@ Definition race (c : config) : Prop :=
   exists i j pi pj a wi wj, i <> j /\ nth_error (ths c) i = Some pi /\ nth_error (ths c) j = Some pj /\
     plain_access (sh c) pi = Some (a, wi) /\ plain_access (sh c) pj = Some (a, wj) /\ (wi || wj = true).
 
-(* Len(): two loads, a wrapping subtraction, a clamp *)
-Definition len_of (t h c : Z) : Z := let l := u32 (t - h) in if c <? l then c else l.
 
 (* ------------------------------------------------------------------------------------------- *)
 (* Progress: starting from a quiescent ring that is not full, if only pushers run, the first one   *)
@@ -299,3 +319,19 @@ Definition phaseA (c0 c : config) : Prop :=
 Definition phaseB (c : config) : Prop :=
   (exists j v pos seq T0, nth_error (ths c) j = Some (PuWrite v pos seq T0) \/ nth_error (ths c) j = Some (PuPublish v pos seq T0)) \/
   (exists j, In (j, RPush true) (hist c)).
+
+(* ------------------------------------------------------------------------------------------- *)
+(* the sequential state after [base] pairs and [fill] pushes *)
+Definition fill_val (j : Z) : Z := 9001 + j.
+Definition seq_state (k base fill : Z) (n : nat) : config :=
+  let c := 2 ^ k in
+  let slot i :=       (* the unique p in [base, base + c) with p mod c = i *)
+    let p := base + ((i - base) mod c) in
+    if p <? base + fill then ((Some (fill_val (p - base)), u32 (p + 1)), Published p)
+    else ((None, u32 p), Free p) in
+  let idx := map Z.of_nat (seq 0 (Z.to_nat c)) in
+  let vs := map fill_val (map Z.of_nat (seq 0 (Z.to_nat fill))) in
+  {| sh := {| slots := map (fun i => fst (slot i)) idx; hd := base; tl := base + fill; cap := c;
+              q := vs; ph := map (fun i => snd (slot i)) idx; lin := map LPush vs |};
+     ths := repeat Idle n; hist := [] |}.
+
